@@ -213,8 +213,13 @@ PLACE_FILE = {"second_root": ("root2", "cb/src/b.rs"), "third_root": ("root3", "
 # is made to receive the files in the order the place names (TYPESHARE_VERIF_ORDER): the run fails wherever the bad file arrives
 # (the result of the bad file has no first type name: it is the empty name of the order list)
 BAD_ORDER = {"bad_item_arrives_first": ",First,Third", "bad_item_arrives_middle": "First,,Third", "bad_item_arrives_last": "First,Third,"}
-for _k in BAD_ORDER:
+# the ungenerable part (a u64) sits in a plain field / in a field of a struct variant / in the payload of a tuple variant / in an alias
+BAD_SRC = {"bad_vfield_item": '#[typeshare]\n#[serde(tag = "t", content = "c")]\npub enum Second { Progress { alpha: u32, total: u64, label: String }, Done }\n',
+           "bad_payload_item": '#[typeshare]\n#[serde(tag = "t", content = "c")]\npub enum Second { Progress(u64), Done }\n',
+           "bad_alias_item": "#[typeshare]\npub type Second = Vec<u64>;\n"}
+for _k in list(BAD_ORDER) + list(BAD_SRC):
     PLACE_FILE[_k] = ("root1", "ca/src/bad.rs")
+BAD_PLACES = set(BAD_ORDER) | set(BAD_SRC)
 # second_run: the files are generated twice into the same location; what is read back is what the SECOND run left there
 PLACE_FILE["second_run"] = ("root1", "cb/src/b.rs")
 # the annotation of the item that is ALONE in its file, in the spellings other than #[typeshare]
@@ -243,10 +248,11 @@ def places(chk):
         files = {"root1/ca/src/lib.rs": "#[typeshare]\npub struct First { pub alpha: u32 }\n", "root1/cc/src/lib.rs": "#[typeshare]\npub struct Third { pub alpha: u32 }\n",
                  f"{root}/{rel}": PLACE_ANN.get(c["place"], "#[typeshare]") + "\npub struct Second { pub alpha: u32 }\n"}
         env = None
-        if c["place"] in BAD_ORDER:
+        if c["place"] in BAD_PLACES:
             files = {"root1/ca/src/lib.rs": "#[typeshare]\npub struct First { pub alpha: u32 }\n", "root1/ca/src/third.rs": "#[typeshare]\npub struct Third { pub alpha: u32 }\n",
-                     "root1/ca/src/bad.rs": "#[typeshare]\npub struct Second { pub alpha: u64 }\n"}
-            env = {"TYPESHARE_VERIF_ORDER": BAD_ORDER[c["place"]], "TYPESHARE_VERIF_THREADS": "2"}
+                     "root1/ca/src/bad.rs": BAD_SRC.get(c["place"], "#[typeshare]\npub struct Second { pub alpha: u64 }\n")}
+            if c["place"] in BAD_ORDER:
+                env = {"TYPESHARE_VERIF_ORDER": BAD_ORDER[c["place"]], "TYPESHARE_VERIF_THREADS": "2"}
         if root == "root3":
             files["root2/cz/src/lib.rs"] = "pub struct NotShared;\n"
         if c["place"] == "symlink_file":          # b.rs is a symbolic link to a regular file that lies outside every scanned directory
@@ -281,7 +287,7 @@ def places(chk):
                         continue
                     defs += [{"name": d["name"], "members": [m["key"] for m in d.get("members", [])], "variant_fields": []} for d in o["defs"]]
             ev = {"items": items, "defs": defs, "extras": []}
-            if c["place"] in BAD_ORDER:
+            if c["place"] in BAD_PLACES:
                 ev.update(ungenerable=1, outcome=r["exit"])
             events.append(ev)
             meta.append((c, r))
@@ -292,7 +298,7 @@ def places(chk):
     for b in tres.bad:
         c, r = meta[b - 1]
         names = [d["name"] for d in events[b - 1]["defs"]]
-        kind = "ungenerable-item-not-reported" if c["place"] in BAD_ORDER else "run-failed" if r["exit"] != "ok" else "item-not-found" if "Second" not in names else "other-items-lost-or-duplicated"
+        kind = "ungenerable-item-not-reported" if c["place"] in BAD_PLACES else "run-failed" if r["exit"] != "ok" else "item-not-found" if "Second" not in names else "other-items-lost-or-duplicated"
         chk.mismatch(f"C03/{c['lang']}+cli/{c['mode']}/place={c['place']}/{kind}", f"{c['lang']} {c['mode']}: annotated items First, Second ({c['place']}), Third -> "
                      f"definitions {names} (exit {r['exit']}: {r['stderr'][-160:].strip()})", {"place": c}, "one definition per annotated item", names)
     chk.traces += len(events) - len(tres.bad)
